@@ -203,12 +203,16 @@ class SolverWrapper:
                 # HiGHS batched updates
                 import numpy as np  # local alias to ensure available
                 if self._pending_fix_vars:
-                    idxs = np.array([v.index for v in self._pending_fix_vars], dtype=np.int32)
-                    vals = np.array(self._pending_fix_vals, dtype=np.float64)
+                    # A variable queued more than once keeps its last value (HiGHS silently rejects
+                    # index sets containing duplicates, which would drop the whole batch)
+                    fixes = {v.index: val for v, val in zip(self._pending_fix_vars, self._pending_fix_vals)}
+                    idxs = np.array(list(fixes.keys()), dtype=np.int32)
+                    vals = np.array(list(fixes.values()), dtype=np.float64)
                     self.solver.changeColsBounds(len(idxs), idxs, vals, vals)
                 if self._pending_lb_vars:
-                    idxs = np.array([v.index for v in self._pending_lb_vars], dtype=np.int32)
-                    lbs  = np.array(self._pending_lb_vals, dtype=np.float64)
+                    new_lbs = {v.index: val for v, val in zip(self._pending_lb_vars, self._pending_lb_vals)}
+                    idxs = np.array(list(new_lbs.keys()), dtype=np.int32)
+                    lbs  = np.array(list(new_lbs.values()), dtype=np.float64)
                     # Prefer dedicated lower bound update if available, else fall back to bounds change with UB unchanged
                     if hasattr(self.solver, "changeColsLower"):
                         self.solver.changeColsLower(len(idxs), idxs, lbs)
